@@ -38,6 +38,9 @@ def harnesses(tier):
             scenario_harness("nested1-parent-ends-during-nested-shutdown", Profile(
                 templates=("N11",), timeout="always", timeout_scope="top", lat="free", sd="free", sdt="free",
                 perm="id", crit_job=False, edges="none"), o + [O.c11_clean_exit]),
+            scenario_harness("nested1-both-time-out-with-latency", Profile(
+                templates=("N11",), timeout="always", lat="free", perm="id", crit_job=False, edges="none"),
+                o + [O.c11_clean_exit]),
             shutdown_only("explicit-never-run", Profile(sd="free", sdt="free", perm="id"), ("F2", "N11", "N12")),
         ]
     return [
